@@ -1,1460 +1,7 @@
-// Harness c13: the real mempool.txList and the real mempool.MemPool (on a real StateDB, no actor
-// system) driven operation by operation against the Lean model `Aergo.Pool`, with the property's
-// own predicate (C13) evaluated on the real structures after every operation.
+// Harness c13 (pool half): the real mempool.txList and the real mempool.MemPool driven directly (no actor system) against
+// the Lean model `Aergo.Pool`; sessions, oracle and generators live in harness/c13lib (shared with c13chain).
 package main
 
-import (
-	"bytes"
-	"encoding/binary"
-	"fmt"
-	"math"
-	"math/big"
-	"path/filepath"
-	"sort"
-	"strconv"
-	"strings"
-	"sync"
-	"time"
+import "github.com/aergoio/aergo/v2/zz_verif/c13lib"
 
-	"github.com/aergoio/aergo/v2/mempool"
-	"github.com/aergoio/aergo/v2/state"
-	"github.com/aergoio/aergo/v2/types"
-	"github.com/aergoio/aergo/v2/zz_verif/vh"
-	"github.com/rs/zerolog"
-)
-
-const nAcc = 5 // accounts of the universe (model ids 0..nAcc-1)
-
-type acct struct {
-	nonce uint64
-	bal   uint64
-}
-
-type btx struct {
-	from, to int // to: -1 = an address outside the universe
-	tx       *types.Tx
-}
-
-type blk struct {
-	id     int
-	parent *blk
-	height uint64
-	chain  int
-	st     [nAcc]acct
-	root   []byte
-	b      *types.Block
-	txs    []btx
-}
-
-type world struct {
-	run     *vh.Run
-	rng     *vh.Rng
-	sdb     *state.ChainStateDB
-	mp      *mempool.MemPool
-	addr    [nAcc][]byte
-	aidx    map[string]int
-	blocks  []*blk
-	best    *blk // what the pool was last notified of
-	settled bool // the last notification completed a connect / a whole reorganisation
-	txid    map[string]int
-	txs     map[int]types.Transaction
-	chains  [][]byte
-	ops     []string // session so far (replay)
-	nsdb    int
-	bare    *mempool.VerifTxList
-	bareOps []string
-	nshrunk int
-	named   map[string]int // tx hash -> verified account, for transactions whose sender field is a name
-	nknown  int
-	known   string         // class id to tag the next oracle failure with (set around one operation only)
-}
-
-func (w *world) addrOf(i int) []byte {
-	if i >= 0 {
-		return w.addr[i]
-	}
-	b := make([]byte, types.AddressLength)
-	b[0] = 3
-	b[1] = 0xEE
-	return b
-}
-
-func (w *world) idOf(tx *types.Tx) int {
-	k := string(tx.Hash)
-	if id, ok := w.txid[k]; ok {
-		return id
-	}
-	id := len(w.txid) + 1
-	w.txid[k] = id
-	w.txs[id] = types.NewTransaction(tx)
-	return id
-}
-
-func (w *world) mkTx(from, to int, nonce, amount uint64, salt int) *types.Tx {
-	body := &types.TxBody{
-		Nonce:     nonce,
-		Account:   w.addrOf(from),
-		Recipient: w.addrOf(to),
-		Amount:    new(big.Int).SetUint64(amount).Bytes(),
-		Type:      types.TxType_NORMAL,
-	}
-	if salt > 0 {
-		body.Payload = []byte(strconv.Itoa(salt))
-	}
-	tx := &types.Tx{Body: body}
-	tx.Hash = tx.CalculateTxHash()
-	w.idOf(tx)
-	return tx
-}
-
-// mkNamedTx: a transaction whose sender field is an account *name* (<= 12 bytes). MemPool.verifyTx resolves
-// the name and records the address with SetVerifedAccount; put() files the transaction under that address.
-func (w *world) mkNamedTx(from, to int, nonce, amount uint64) *types.Tx {
-	body := &types.TxBody{
-		Nonce:     nonce,
-		Account:   []byte(fmt.Sprintf("verifname%d", from)),
-		Recipient: w.addrOf(to),
-		Amount:    new(big.Int).SetUint64(amount).Bytes(),
-		Type:      types.TxType_NORMAL,
-	}
-	tx := &types.Tx{Body: body}
-	tx.Hash = tx.CalculateTxHash()
-	w.named[string(tx.Hash)] = from
-	w.idOf(tx)
-	return tx
-}
-
-// wrap does what the verifier does before put(): NewTransaction, plus the verified account of a named sender.
-func (w *world) wrap(tx *types.Tx) types.Transaction {
-	t := types.NewTransaction(tx)
-	if a, ok := w.named[string(tx.Hash)]; ok {
-		t.SetVerifedAccount(w.addr[a])
-	}
-	return t
-}
-
-// senderIdx: model account of the list the transaction belongs to / of the account field removeTx reads.
-func (w *world) senderIdx(tx *types.Tx) (listAcc, fieldAcc int) {
-	if a, ok := w.named[string(tx.Hash)]; ok {
-		return a, 100 + a
-	}
-	a := w.aidx[string(tx.Body.Account)]
-	return a, a
-}
-
-func amountOf(tx *types.Tx) uint64 { return new(big.Int).SetBytes(tx.Body.Amount).Uint64() }
-
-// ---------------------------------------------------------------- chain side (block tree with real state roots)
-
-func (w *world) newSession() {
-	w.nsdb++
-	w.sdb = state.NewChainStateDB()
-	if err := w.sdb.Init("memorydb", filepath.Join(w.run.Out, "sdb", strconv.Itoa(w.nsdb)), nil, false, nil); err != nil {
-		panic(err)
-	}
-	w.mp = mempool.VerifNew(w.sdb)
-	// NewMemPoolService resets the package-level eviction period (0 when fade-out is off in the config):
-	// eviction horizon 1 h; a sweep is never cut short by its 4 ms work timer
-	mempool.VerifSetEvict(time.Hour, time.Hour)
-	w.blocks = nil
-	w.txid = map[string]int{}
-	w.txs = map[int]types.Transaction{}
-	w.named = map[string]int{}
-	w.ops = nil
-	w.chains = nil
-	w.chainBytes(0)
-	w.best = nil
-	w.settled = false
-}
-
-func (w *world) chainBytes(version int32) int {
-	cid := types.NewChainID()
-	cid.PublicNet = true
-	cid.Magic = "verif"
-	cid.Consensus = "dpos"
-	cid.Version = version
-	b, err := cid.Bytes()
-	if err != nil {
-		panic(err)
-	}
-	for i, c := range w.chains {
-		if bytes.Equal(c, b) {
-			return i + 1
-		}
-	}
-	w.chains = append(w.chains, b)
-	return len(w.chains)
-}
-
-// mkBlock builds a block on parent (nil = genesis) with the given transactions and extra
-// balance-only changes, commits the resulting account states and returns the block.
-func (w *world) mkBlock(parent *blk, txs []btx, bump map[int]int64, chain int, genesis *[nAcc]acct) *blk {
-	b := &blk{id: len(w.blocks) + 1, parent: parent, chain: chain, txs: txs}
-	var root []byte
-	var prev []byte
-	if parent != nil {
-		b.st = parent.st
-		b.height = parent.height + 1
-		root = parent.root
-		prev = parent.b.BlockHash()
-	} else {
-		b.st = *genesis
-	}
-	changed := map[int]bool{}
-	if parent == nil {
-		for i := 0; i < nAcc; i++ {
-			changed[i] = true
-		}
-	}
-	for _, t := range txs {
-		a := amountOf(t.tx)
-		b.st[t.from].nonce = t.tx.Body.Nonce
-		b.st[t.from].bal -= a
-		changed[t.from] = true
-		if t.to >= 0 {
-			b.st[t.to].bal += a
-			changed[t.to] = true
-		}
-	}
-	for i, d := range bump {
-		nb := int64(b.st[i].bal) + d
-		if nb < 0 {
-			nb = 0
-		}
-		b.st[i].bal = uint64(nb)
-		changed[i] = true
-	}
-	sdb := w.sdb.OpenNewStateDB(root)
-	for i := 0; i < nAcc; i++ {
-		if changed[i] {
-			st := &types.State{Nonce: b.st[i].nonce, Balance: new(big.Int).SetUint64(b.st[i].bal).Bytes()}
-			if err := sdb.PutState(types.ToAccountID(w.addr[i]), st); err != nil {
-				panic(err)
-			}
-		}
-	}
-	if err := sdb.Update(); err != nil {
-		panic(err)
-	}
-	if err := sdb.Commit(); err != nil {
-		panic(err)
-	}
-	b.root = sdb.GetRoot()
-	body := &types.BlockBody{}
-	for _, t := range txs {
-		body.Txs = append(body.Txs, t.tx)
-	}
-	b.b = &types.Block{
-		Header: &types.BlockHeader{ChainID: w.chains[chain-1], PrevBlockHash: prev, BlockNo: b.height,
-			Timestamp: int64(1000 + b.id), BlocksRootHash: b.root},
-		Body: body,
-	}
-	b.b.BlockHash()
-	w.blocks = append(w.blocks, b)
-	return b
-}
-
-func (w *world) blockOp(b *blk) string {
-	pid := 0
-	if b.parent != nil {
-		pid = b.parent.id
-	}
-	dirty := map[int]bool{}
-	for _, t := range b.txs {
-		dirty[t.from] = true
-		if t.to >= 0 {
-			dirty[t.to] = true
-		}
-	}
-	var ds []string
-	for i := 0; i < nAcc; i++ {
-		if dirty[i] {
-			ds = append(ds, strconv.Itoa(i))
-		}
-	}
-	var ss []string
-	for i := 0; i < nAcc; i++ {
-		ss = append(ss, fmt.Sprintf("%d:%d:%d", i, b.st[i].nonce, b.st[i].bal))
-	}
-	return fmt.Sprintf("block %d %d %d d=%s s=%s", b.id, pid, b.chain, orDash(strings.Join(ds, ",")), strings.Join(ss, ","))
-}
-
-func orDash(s string) string {
-	if s == "" {
-		return "-"
-	}
-	return s
-}
-
-// ---------------------------------------------------------------- observation of the real pool
-
-type listView struct {
-	acc   int
-	base  acct
-	ready int
-	txs   []types.Transaction
-	last  time.Time
-}
-
-func (w *world) observe() (lists []listView, cache []int, length, orphan int, bad string) {
-	ls, ck, l, o := w.mp.VerifDump()
-	for _, v := range ls {
-		if v.Account == nil {
-			bad = "pool map key differs from the list's account"
-			continue
-		}
-		i, ok := w.aidx[string(v.Account)]
-		if !ok {
-			bad = "list for an account outside the universe"
-			continue
-		}
-		lists = append(lists, listView{acc: i, base: acct{v.BaseNonce, v.BaseBalance.Uint64()}, ready: v.Ready, txs: v.Txs, last: v.LastTime})
-	}
-	sort.Slice(lists, func(i, j int) bool { return lists[i].acc < lists[j].acc })
-	for _, k := range ck {
-		id, ok := w.txid[string(k[:])]
-		if !ok {
-			bad = "hash index holds a hash never submitted"
-			continue
-		}
-		cache = append(cache, id)
-	}
-	sort.Ints(cache)
-	return lists, cache, l, o, bad
-}
-
-func showList(base acct, ready int, txs []types.Transaction, id func(*types.Tx) int) string {
-	var ts []string
-	for _, t := range txs {
-		ts = append(ts, fmt.Sprintf("%d/%d/%d", t.GetBody().GetNonce(), id(t.GetTx()), amountOf(t.GetTx())))
-	}
-	return fmt.Sprintf("n%d:b%d:r%d[%s]", base.nonce, base.bal, ready, orDash(strings.Join(ts, ",")))
-}
-
-func (w *world) dump() string {
-	lists, cache, l, o, _ := w.observe()
-	var cs, ls []string
-	for _, c := range cache {
-		cs = append(cs, strconv.Itoa(c))
-	}
-	for _, v := range lists {
-		ls = append(ls, fmt.Sprintf("a%d:%s", v.acc, showList(v.base, v.ready, v.txs, w.idOf)))
-	}
-	return fmt.Sprintf("L=%d O=%d C=%s | %s", l, o, orDash(strings.Join(cs, ",")), orDash(strings.Join(ls, " ")))
-}
-
-// oracle: the property C13 evaluated on the real pool. Returns the first violated clause ("" = holds).
-func (w *world) oracle() string {
-	lists, cache, length, orphan, bad := w.observe()
-	if bad != "" {
-		return bad
-	}
-	seen := map[int]int{}
-	sumLen, sumOrphan := 0, 0
-	for _, v := range lists {
-		prev := uint64(0)
-		for k, t := range v.txs {
-			n := t.GetBody().GetNonce()
-			if la, _ := w.senderIdx(t.GetTx()); la != v.acc {
-				return fmt.Sprintf("account %d: holds a transaction of another account", v.acc)
-			}
-			if k > 0 && n == prev {
-				return fmt.Sprintf("account %d: two pooled transactions with nonce %d", v.acc, n)
-			}
-			if k > 0 && n < prev {
-				return fmt.Sprintf("account %d: nonces not ascending (%d after %d)", v.acc, n, prev)
-			}
-			prev = n
-			id := w.idOf(t.GetTx())
-			seen[id]++
-			if seen[id] > 1 {
-				return fmt.Sprintf("transaction %d (one hash) is held twice", id)
-			}
-		}
-		if v.ready < 0 || v.ready > len(v.txs) {
-			return fmt.Sprintf("account %d: ready=%d outside the list (len %d)", v.acc, v.ready, len(v.txs))
-		}
-		// the offered run is base+1, base+2, ... and is maximal (a tx is held aside only beyond a gap)
-		for k := 0; k < v.ready; k++ {
-			if v.txs[k].GetBody().GetNonce() != v.base.nonce+uint64(k)+1 {
-				return fmt.Sprintf("account %d: offered run has a gap at position %d (nonce %d, base %d)", v.acc, k,
-					v.txs[k].GetBody().GetNonce(), v.base.nonce)
-			}
-		}
-		if v.ready < len(v.txs) && v.txs[v.ready].GetBody().GetNonce() == v.base.nonce+uint64(v.ready)+1 {
-			return fmt.Sprintf("account %d: transaction with nonce %d fills the gap but is held aside", v.acc, v.txs[v.ready].GetBody().GetNonce())
-		}
-		sumLen += len(v.txs)
-		sumOrphan += len(v.txs) - v.ready
-		// against the account state the pool has been told about
-		if w.best != nil {
-			st := w.best.st[v.acc]
-			// no stale entry after a processed notification: at every point (the chain side of the harness is
-			// faithful: a block changes nonces only of the senders it names)
-			for _, t := range v.txs {
-				if t.GetBody().GetNonce() <= st.nonce {
-					return fmt.Sprintf("account %d: stale transaction nonce %d <= state nonce %d", v.acc, t.GetBody().GetNonce(), st.nonce)
-				}
-			}
-			// the offered run starts at state+1: after every processed notification and every other operation
-			if len(v.txs) > 0 && v.base.nonce != st.nonce {
-				return fmt.Sprintf("account %d: offered run starts from %d+1 but the state nonce is %d", v.acc, v.base.nonce, st.nonce)
-			}
-		}
-	}
-	if len(cache) != len(seen) {
-		return fmt.Sprintf("hash index has %d entries, lists hold %d transactions", len(cache), len(seen))
-	}
-	for _, c := range cache {
-		if seen[c] != 1 {
-			return fmt.Sprintf("hash index knows transaction %d which no list holds", c)
-		}
-	}
-	if length != sumLen {
-		return fmt.Sprintf("reported total %d, held %d", length, sumLen)
-	}
-	if orphan != sumOrphan {
-		return fmt.Sprintf("reported orphans %d, held aside %d", orphan, sumOrphan)
-	}
-	up, uo := w.mp.VerifUnconfirmedAll()
-	if up != sumLen-sumOrphan || uo != sumOrphan {
-		return fmt.Sprintf("unconfirmed report says %d pooled %d orphaned, held %d and %d", up, uo, sumLen-sumOrphan, sumOrphan)
-	}
-	return ""
-}
-
-func (w *world) emit(op, res string, nontrivial bool) {
-	w.ops = append(w.ops, op)
-	out := res
-	if !strings.HasPrefix(op, "get") && !strings.HasPrefix(op, "exist") && !strings.HasPrefix(op, "size") {
-		out = res + " | " + w.dump()
-	}
-	w.run.Op(op, out, nontrivial)
-	if v := w.oracle(); v != "" {
-		w.failPool(v)
-	}
-}
-
-// failPool records a property failure of the current pool session with a minimised operation sequence.
-func (w *world) failPool(v string) {
-	rep := map[string]interface{}{"pool_after": w.dump()}
-	ops := append([]string(nil), w.ops...)
-	if w.known != "" {
-		rep["named_sender_txs"] = "the transaction removed last has an account *name* in its sender field; it was filed under its verified address"
-	}
-	if w.nshrunk < 4 && (w.known == "" || w.nknown < 2) {
-		w.nshrunk++
-		if r := w.replayPool(ops); r != "" {
-			ops = w.shrink(ops, 2, w.replayPool)
-			rep["minimised_from"] = len(w.ops)
-			rep["verdict_on_minimised"] = w.replayPool(ops)
-		} else {
-			rep["note"] = "not reproduced by a plain replay of the session (fetch-only or schedule-dependent failure)"
-		}
-	}
-	rep["session_ops"] = ops
-	known := w.known
-	if known != "" && !(strings.HasPrefix(v, "hash index") || strings.HasPrefix(v, "reported total")) {
-		known = "" // a different clause broke: not the listed class
-	}
-	if known != "" {
-		// a listed class: record the first occurrences only, so that the bounded failure list stays free for anything else
-		w.run.Count("known-class-hit:" + w.known)
-		w.nknown++
-		if w.nknown > 2 {
-			return
-		}
-	}
-	w.run.FailKnown(v, known, rep)
-}
-
-// shrink greedily deletes operations (never the first `keep` ones) while the replay still fails.
-func (w *world) shrink(ops []string, keep int, replay func([]string) string) []string {
-	for pass := 0; pass < 3; pass++ {
-		changed := false
-		for i := len(ops) - 1; i >= keep; i-- {
-			if strings.HasPrefix(ops[i], "block ") {
-				continue // the notification sequence stays as the chain produced it
-			}
-			cand := append(append([]string(nil), ops[:i]...), ops[i+1:]...)
-			if replay(cand) != "" {
-				ops = cand
-				changed = true
-			}
-		}
-		if !changed {
-			break
-		}
-	}
-	return ops
-}
-
-// replayPool re-runs a pool session (operation lines of this session: transactions and blocks are looked up
-// by their ids) on a fresh real MemPool over the same state DB and returns the first oracle failure ("" = none).
-func (w *world) replayPool(ops []string) (verdict string) {
-	smp, sbest, ssettled, sops := w.mp, w.best, w.settled, w.ops
-	defer func() {
-		if e := recover(); e != nil {
-			verdict = fmt.Sprintf("panic: %v", e)
-		}
-		w.mp, w.best, w.settled, w.ops = smp, sbest, ssettled, sops
-	}()
-	atoi := func(x string) int { n, _ := strconv.Atoi(x); return n }
-	for _, op := range ops {
-		f := strings.Fields(op)
-		switch f[0] {
-		case "new":
-			w.mp = mempool.VerifNew(w.sdb)
-			mempool.VerifSetEvict(time.Hour, time.Hour)
-			w.best, w.settled = nil, false
-		case "put", "putn":
-			w.mp.VerifPut(w.wrap(w.txs[atoi(f[3])].GetTx()))
-		case "rm":
-			w.mp.VerifRemoveTx(w.txs[atoi(f[2])].GetTx())
-		case "block":
-			b := w.blocks[atoi(f[1])-1]
-			if w.best == nil {
-				w.mp.VerifInit(b.b)
-				w.best, w.settled = b, true
-			}
-			w.mp.VerifBlockArrival(b.b)
-			w.best = b
-		case "evict":
-			if f[1] != "-" {
-				for _, a := range strings.Split(f[1], ",") {
-					w.mp.VerifBackdate(w.addr[atoi(a)], 3*time.Hour)
-				}
-			}
-			w.mp.VerifEvict()
-		case "get":
-			w.mp.VerifGet(math.MaxUint32)
-		case "unconf":
-			w.mp.VerifUnconfirmed(w.addr[atoi(f[1])])
-		}
-		if w.best != nil {
-			if v := w.oracle(); v != "" {
-				return v
-			}
-		}
-	}
-	return ""
-}
-
-
-// ---------------------------------------------------------------- pool operations
-
-func classify(err error) string {
-	switch err {
-	case nil:
-		return "ok"
-	case types.ErrTxAlreadyInMempool:
-		return "already"
-	case types.ErrTxNonceTooLow:
-		return "low"
-	case types.ErrInsufficientBalance:
-		return "insufficient"
-	case types.ErrSameNonceAlreadyInMempool:
-		return "samenonce"
-	}
-	return "other:" + err.Error()
-}
-
-func (w *world) doPut(tx *types.Tx, from int, kind string) {
-	id := w.idOf(tx)
-	verb := "put"
-	if _, ok := w.named[string(tx.Hash)]; ok {
-		verb = "putn" // sender field is a name; `from` is the verified address the transaction is filed under
-	}
-	op := fmt.Sprintf("%s %d %d %d %d", verb, from, tx.Body.Nonce, id, amountOf(tx))
-	res, _ := vh.Guard(func() string { return classify(w.mp.VerifPut(w.wrap(tx))) })
-	w.run.Count("put:" + kind + ":" + strings.SplitN(res, ":", 2)[0])
-	w.emit(op, res, res == "ok")
-	if res == "ok" {
-		// a transaction accepted beyond a gap must be held, and existence queries must find it
-		if w.mp.VerifExist(tx.Hash) == nil {
-			w.run.Fail("accepted transaction is not found by hash", map[string]interface{}{"session_ops": append([]string(nil), w.ops...)})
-		}
-	}
-}
-
-func (w *world) pooled() (all []types.Transaction, byAcc map[int][]types.Transaction) {
-	lists, _, _, _, _ := w.observe()
-	byAcc = map[int][]types.Transaction{}
-	for _, v := range lists {
-		all = append(all, v.txs...)
-		byAcc[v.acc] = v.txs
-	}
-	return
-}
-
-func (w *world) genPut() {
-	rng := w.rng
-	a := rng.Intn(nAcc)
-	all, by := w.pooled()
-	st := w.best.st[a]
-	mine := by[a]
-	switch k := rng.Intn(100); {
-	case k < 8 && len(all) > 0: // exact duplicate (same hash)
-		t := all[rng.Intn(len(all))].GetTx()
-		la, _ := w.senderIdx(t)
-		w.doPut(t, la, "dup-hash")
-	case k < 18 && len(mine) > 0: // replacement attempt: same account and nonce, other content
-		t := mine[rng.Intn(len(mine))].GetTx()
-		w.doPut(w.mkTx(a, rng.Intn(nAcc), t.Body.Nonce, amountOf(t)+uint64(rng.Intn(3)), 1+rng.Intn(1000)), a, "same-nonce")
-	case k < 26: // stale nonce
-		n := uint64(0)
-		if st.nonce > 0 {
-			n = st.nonce - uint64(rng.Intn(int(min64(st.nonce, 3))+1))
-		}
-		w.doPut(w.mkTx(a, rng.Intn(nAcc), n, uint64(rng.Intn(5)), rng.Intn(3)), a, "stale")
-	case k < 34: // more than the balance
-		w.doPut(w.mkTx(a, rng.Intn(nAcc), st.nonce+1+uint64(rng.Intn(3)), st.bal+1+uint64(rng.Intn(3)), 0), a, "too-expensive")
-	case k < 40: // exactly the balance
-		w.doPut(w.mkTx(a, rng.Intn(nAcc), st.nonce+1+uint64(rng.Intn(3)), st.bal, 0), a, "exact-balance")
-	case k < 60: // the lowest missing nonce (fills the first gap / extends the run)
-		n := st.nonce + 1
-		have := map[uint64]bool{}
-		for _, t := range mine {
-			have[t.GetBody().GetNonce()] = true
-		}
-		for have[n] {
-			n++
-		}
-		w.doPut(w.mkTx(a, rng.Intn(nAcc), n, uint64(rng.Intn(int(min64(st.bal, 40))+1)), rng.Intn(2)), a, "fill-gap")
-	case k < 64: // far ahead
-		w.doPut(w.mkTx(a, rng.Intn(nAcc), st.nonce+20+uint64(rng.Intn(1000)), uint64(rng.Intn(5)), 0), a, "far")
-	default: // somewhere in a small window above the state nonce, arbitrary order
-		w.doPut(w.mkTx(a, rng.Intn(nAcc), st.nonce+1+uint64(rng.Intn(7)), uint64(rng.Intn(int(min64(st.bal, 60))+1)), rng.Intn(2)), a, "window")
-	}
-}
-
-func min64(a, b uint64) uint64 {
-	if a < b {
-		return a
-	}
-	return b
-}
-
-func (w *world) genRemove() {
-	rng := w.rng
-	all, _ := w.pooled()
-	var t *types.Tx
-	kind := "pooled"
-	if len(all) == 0 || rng.Chance(1, 5) {
-		kind = "unknown"
-		if len(w.txs) > 0 && rng.Bool() {
-			t = w.txs[1+rng.Intn(len(w.txs))].GetTx() // some tx seen before (maybe no longer pooled)
-			kind = "seen-before"
-		} else {
-			t = w.mkTx(rng.Intn(nAcc), 0, uint64(1+rng.Intn(9)), 1, 7000+rng.Intn(1000))
-		}
-	} else {
-		t = all[rng.Intn(len(all))].GetTx()
-	}
-	_, a := w.senderIdx(t)
-	op := fmt.Sprintf("rm %d %d", a, w.idOf(t))
-	res, _ := vh.Guard(func() string {
-		err := w.mp.VerifRemoveTx(t)
-		if err == types.ErrTxNotFound {
-			return "notfound"
-		}
-		return classify(err)
-	})
-	w.run.Count("rm:" + kind + ":" + res)
-	w.emit(op, res, res == "ok")
-}
-
-// contents of a block built on parent p: pooled ready transactions, fresh ones, conflicting ones
-func (w *world) genBlockTxs(p *blk, usePool bool) ([]btx, map[int]int64) {
-	rng := w.rng
-	st := p.st
-	var out []btx
-	_, by := w.pooled()
-	for a := 0; a < nAcc; a++ {
-		if !rng.Chance(2, 5) {
-			continue
-		}
-		n := 1 + rng.Intn(3)
-		for k := 0; k < n; k++ {
-			next := st[a].nonce + 1
-			var tx *types.Tx
-			if usePool && rng.Chance(2, 3) {
-				for _, t := range by[a] {
-					if t.GetBody().GetNonce() == next && amountOf(t.GetTx()) <= st[a].bal {
-						tx = t.GetTx()
-					}
-				}
-			}
-			to := rng.Intn(nAcc+1) - 1
-			if tx == nil {
-				amt := uint64(rng.Intn(int(min64(st[a].bal, 30)) + 1))
-				tx = w.mkTx(a, to, next, amt, 100+rng.Intn(1000))
-				w.idOf(tx)
-			} else {
-				to = -1
-				if i, ok := w.aidx[string(tx.Body.Recipient)]; ok {
-					to = i
-				}
-			}
-			amt := amountOf(tx)
-			st[a].nonce = next
-			st[a].bal -= amt
-			if to >= 0 {
-				st[to].bal += amt
-			}
-			out = append(out, btx{a, to, tx})
-		}
-	}
-	bump := map[int]int64{}
-	if rng.Chance(1, 4) { // balance-only effects (contract-internal transfers, rewards): not named in the block body
-		bump[rng.Intn(nAcc)] = int64(rng.Intn(81)) - 40
-	}
-	return out, bump
-}
-
-func (w *world) notify(b *blk, last bool, kind string) {
-	op := w.blockOp(b)
-	before, _, _, _, _ := w.observe()
-	nb := 0
-	for _, v := range before {
-		nb += len(v.txs)
-	}
-	if w.best != nil && b != w.best && b.parent != w.best {
-		w.run.Count("block:parent-is-not-the-pools-best(first-block-of-a-reorganisation)")
-	}
-	res, _ := vh.Guard(func() string { return classify(w.mp.VerifBlockArrival(b.b)) })
-	w.best = b
-	w.settled = true
-	after, _, _, _, _ := w.observe()
-	na := 0
-	for _, v := range after {
-		na += len(v.txs)
-	}
-	w.run.Count("block:" + kind)
-	if na < nb {
-		w.run.Count("block:removed-some")
-	}
-	w.emit(op, res, na < nb || nb > 0)
-}
-
-func (w *world) genBlock() {
-	txs, bump := w.genBlockTxs(w.best, true)
-	b := w.mkBlock(w.best, txs, bump, w.best.chain, nil)
-	w.notify(b, true, "extend")
-}
-
-// a side branch growing from an ancestor of best; when it is longer than the main branch the
-// chain service executes its blocks in order and notifies the pool for each (chain/reorg.go)
-func (w *world) genReorg() {
-	rng := w.rng
-	fork := w.best
-	depth := 1 + rng.Intn(3)
-	for k := 0; k < depth && fork.parent != nil; k++ {
-		fork = fork.parent
-	}
-	if fork == w.best {
-		w.genBlock()
-		return
-	}
-	need := int(w.best.height-fork.height) + 1 + rng.Intn(2)
-	var path []*blk
-	p := fork
-	for k := 0; k < need; k++ {
-		txs, bump := w.genBlockTxs(p, rng.Bool())
-		p = w.mkBlock(p, txs, bump, fork.chain, nil)
-		path = append(path, p)
-	}
-	for k, b := range path {
-		w.notify(b, k == len(path)-1, fmt.Sprintf("reorg-step%d", min(k, 2)))
-		if k < len(path)-1 && rng.Chance(1, 2) {
-			// submissions / fetches landing between two notifications of one reorganisation
-			if rng.Bool() {
-				w.genPut()
-			} else {
-				w.genGet()
-			}
-			w.run.Count("op-inside-reorg")
-		}
-	}
-}
-
-func (w *world) genEvict() {
-	rng := w.rng
-	lists, _, _, _, _ := w.observe()
-	var old []string
-	for _, v := range lists {
-		if rng.Chance(1, 3) {
-			w.mp.VerifBackdate(w.addr[v.acc], 3*time.Hour)
-			old = append(old, strconv.Itoa(v.acc))
-		} else if v.last.IsZero() {
-			// a list that was never modified (created empty by the unconfirmed report) is always past the horizon
-			old = append(old, strconv.Itoa(v.acc))
-			w.run.Count("evict:never-modified-list")
-		}
-	}
-	res, _ := vh.Guard(func() string { w.mp.VerifEvict(); return "ok" })
-	w.run.Count(fmt.Sprintf("evict:%d-lists", min(len(old), 3)))
-	w.emit("evict "+orDash(strings.Join(old, ",")), res, len(old) > 0)
-}
-
-func (w *world) genGet() {
-	lists, _, _, _, _ := w.observe()
-	res, _ := vh.Guard(func() string {
-		txs, err := w.mp.VerifGet(math.MaxUint32)
-		if err != nil {
-			return classify(err)
-		}
-		by := map[int][]types.Transaction{}
-		for _, t := range txs {
-			la, _ := w.senderIdx(t.GetTx())
-			by[la] = append(by[la], t)
-		}
-		var parts []string
-		for a := 0; a < nAcc; a++ {
-			if len(by[a]) == 0 {
-				continue
-			}
-			var ts []string
-			for _, t := range by[a] {
-				ts = append(ts, fmt.Sprintf("%d/%d", t.GetBody().GetNonce(), w.idOf(t.GetTx())))
-			}
-			parts = append(parts, fmt.Sprintf("a%d:%s", a, strings.Join(ts, ",")))
-		}
-		// oracle for the fetch itself: per account exactly base+1.. in ascending order, nothing from beyond a gap
-		for _, v := range lists {
-			g := by[v.acc]
-			want := uint64(0)
-			for k, t := range g {
-				if k == 0 {
-					want = v.base.nonce + 1
-				}
-				if t.GetBody().GetNonce() != want {
-					w.run.Fail(fmt.Sprintf("fetch: account %d gets nonce %d where %d is due", v.acc, t.GetBody().GetNonce(), want),
-						map[string]interface{}{"session_ops": append([]string(nil), w.ops...)})
-					break
-				}
-				want++
-			}
-			if len(g) > 0 && g[0].GetBody().GetNonce() != w.best.st[v.acc].nonce+1 {
-				w.run.Fail(fmt.Sprintf("fetch: account %d run starts at %d, state nonce is %d", v.acc, g[0].GetBody().GetNonce(), w.best.st[v.acc].nonce),
-					map[string]interface{}{"session_ops": append([]string(nil), w.ops...)})
-			}
-		}
-		return orDash(strings.Join(parts, " "))
-	})
-	w.run.Count("get")
-	w.emit("get", res, res != "-")
-	// capped fetch: any prefix of the runs (map order decides which); oracle only
-	if len(lists) > 0 && w.rng.Chance(1, 3) {
-		cap := uint32(40 + w.rng.Intn(400))
-		txs, _ := w.mp.VerifGet(cap)
-		next := map[int]uint64{}
-		for _, t := range txs {
-			a, _ := w.senderIdx(t.GetTx())
-			if _, ok := next[a]; !ok {
-				for _, v := range lists {
-					if v.acc == a {
-						next[a] = v.base.nonce + 1
-					}
-				}
-			}
-			if t.GetBody().GetNonce() != next[a] {
-				w.run.Fail(fmt.Sprintf("capped fetch: account %d gets nonce %d where %d is due", a, t.GetBody().GetNonce(), next[a]),
-					map[string]interface{}{"session_ops": append([]string(nil), w.ops...), "cap": cap})
-			}
-			next[a]++
-		}
-		w.run.Eval(fmt.Sprintf("getcap %d %v", cap, w.ops), len(txs) > 0)
-		w.run.Count("get-capped")
-	}
-}
-
-func (w *world) genExist() {
-	var t *types.Tx
-	all, _ := w.pooled()
-	if len(all) > 0 && w.rng.Bool() {
-		t = all[w.rng.Intn(len(all))].GetTx()
-	} else if len(w.txs) > 0 {
-		t = w.txs[1+w.rng.Intn(len(w.txs))].GetTx()
-	} else {
-		return
-	}
-	r := w.mp.VerifExist(t.Hash)
-	res := "0"
-	if r != nil {
-		la, _ := w.senderIdx(r)
-		res = fmt.Sprintf("1 a%d %d", la, r.Body.Nonce)
-	}
-	w.run.Count("exist:" + res[:1])
-	w.emit(fmt.Sprintf("exist %d", w.idOf(t)), res, r != nil)
-}
-
-func (w *world) genUnconf() {
-	a := w.rng.Intn(nAcc)
-	p, o, pi, oi := w.mp.VerifUnconfirmed(w.addr[a])
-	toIDs := func(ss []string) string {
-		var out []string
-		for _, s := range ss {
-			found := 0
-			for h, id := range w.txid {
-				if types.ToTxID([]byte(h)).String() == s {
-					found = id
-				}
-			}
-			out = append(out, strconv.Itoa(found))
-		}
-		return orDash(strings.Join(out, ","))
-	}
-	w.run.Count("unconf")
-	w.emit(fmt.Sprintf("unconf %d", a), fmt.Sprintf("%d %d p=%s o=%s", p, o, toIDs(pi), toIDs(oi)), p+o > 0)
-}
-
-func (w *world) poolSession(nops int) {
-	rng := w.rng
-	w.newSession()
-	w.run.Op("new", "ok | "+w.dump(), false)
-	w.ops = append(w.ops, "new")
-	var g [nAcc]acct
-	for i := range g {
-		g[i] = acct{uint64(rng.Intn(4)) * uint64(rng.Intn(3)), uint64(20 + rng.Intn(200))}
-	}
-	gen := w.mkBlock(nil, nil, nil, 1, &g)
-	// AfterStart: setStateDB(best block); the first notification is the same block again
-	w.mp.VerifInit(gen.b)
-	w.best, w.settled = gen, true
-	// the model starts from an empty pool with best=0: the first notification establishes best/state there
-	w.notify(gen, true, "genesis")
-	for i := 0; i < nops; i++ {
-		switch k := rng.Intn(100); {
-		case k < 52:
-			w.genPut()
-		case k < 60:
-			w.genRemove()
-		case k < 74:
-			w.genBlock()
-		case k < 78:
-			w.genReorg()
-		case k < 79:
-			w.notify(w.best, true, "same-again")
-		case k < 80:
-			// hard fork: the chain id version changes; the pool resets
-			b := w.mkBlock(w.best, nil, nil, w.chainBytes(int32(len(w.chains))), nil)
-			w.notify(b, true, "chain-id-change")
-		case k < 84:
-			w.genEvict()
-		case k < 92:
-			w.genGet()
-		case k < 96:
-			w.genExist()
-		case k < 97:
-			l, o := w.mp.Size()
-			w.emit("size", fmt.Sprintf("%d %d", l, o), l > 0)
-		default:
-			w.genUnconf()
-		}
-	}
-	if rng.Chance(1, 4) {
-		w.namedSenderEpilogue()
-	}
-}
-
-// The shortest history of the named-sender removal: genesis, one submission, its removal.
-func (w *world) namedSenderMinimal() {
-	w.newSession()
-	w.run.Op("new", "ok | "+w.dump(), false)
-	w.ops = append(w.ops, "new")
-	var g [nAcc]acct
-	for i := range g {
-		g[i] = acct{0, 100}
-	}
-	gen := w.mkBlock(nil, nil, nil, 1, &g)
-	w.mp.VerifInit(gen.b)
-	w.best, w.settled = gen, true
-	w.notify(gen, true, "genesis")
-	w.namedSenderRemoval(0, 1, 5, 0)
-}
-
-func (w *world) namedSenderRemoval(a int, n, amount uint64, between int) {
-	tx := w.mkNamedTx(a, (a+1)%nAcc, n, amount)
-	w.doPut(tx, a, "named-sender")
-	for k := between; k > 0; k-- {
-		if w.rng.Bool() {
-			w.genPut()
-		} else {
-			w.genGet()
-		}
-	}
-	_, fa := w.senderIdx(tx)
-	op := fmt.Sprintf("rm %d %d", fa, w.idOf(tx))
-	res, _ := vh.Guard(func() string {
-		err := w.mp.VerifRemoveTx(tx)
-		if err == types.ErrTxNotFound {
-			return "notfound"
-		}
-		return classify(err)
-	})
-	w.run.Count("rm:named-sender:" + res)
-	w.emit(op, res, res == "ok")
-}
-
-// The first notification of a reorganisation, step by step (deterministic regression scenario for finding
-// C13-reorg-first-block-partial-recheck, repaired by af8aff9a): account 0 had nonce 1 executed on the abandoned
-// branch and holds nonce 2 in the pool; the first new-branch block does not name account 0 and its state nonce is
-// back to 0. The pool must rebase account 0's list (nonce 2 becomes an orphan) and accept nonce 1 again.
-func (w *world) reorgWindow() {
-	w.newSession()
-	w.run.Op("new", "ok | "+w.dump(), false)
-	w.ops = append(w.ops, "new")
-	var g [nAcc]acct
-	for i := range g {
-		g[i] = acct{0, 100}
-	}
-	gen := w.mkBlock(nil, nil, nil, 1, &g)
-	w.mp.VerifInit(gen.b)
-	w.best, w.settled = gen, true
-	w.notify(gen, true, "genesis")
-	t1 := w.mkTx(0, 1, 1, 5, 0)
-	a1 := w.mkBlock(gen, []btx{{0, 1, t1}}, nil, 1, nil)
-	w.notify(a1, true, "extend")
-	w.doPut(w.mkTx(0, 1, 2, 5, 0), 0, "window-scenario")
-	b1 := w.mkBlock(gen, []btx{{1, 2, w.mkTx(1, 2, 1, 3, 0)}}, nil, 1, nil)
-	b2 := w.mkBlock(b1, nil, nil, 1, nil)
-	w.notify(b1, false, "reorg-step0")
-	w.genGetPlain()
-	w.doPut(t1, 0, "window-resubmission") // the rolled-back transaction, valid in the new state
-	w.notify(b2, true, "reorg-step1")
-	w.doPut(t1, 0, "window-resubmission")
-	w.genGetPlain()
-}
-
-func (w *world) genGetPlain() { w.genGet() }
-
-// A transaction whose sender field is a name is submitted (filed under its verified address), and later removed
-// through removeTx the way the chain service does for a transaction that timed out in block production
-// (MemPoolDelTx carries the bare *types.Tx). Last operations of the session.
-func (w *world) namedSenderEpilogue() {
-	rng := w.rng
-	a := rng.Intn(nAcc)
-	st := w.best.st[a]
-	_, by := w.pooled()
-	n := st.nonce + 1
-	have := map[uint64]bool{}
-	for _, t := range by[a] {
-		have[t.GetBody().GetNonce()] = true
-	}
-	for have[n] {
-		n++
-	}
-	if rng.Chance(1, 3) {
-		n += 2
-	}
-	w.namedSenderRemoval(a, n, uint64(rng.Intn(int(min64(st.bal, 20))+1)), rng.Intn(3))
-}
-
-// ---------------------------------------------------------------- bare txList sessions
-
-func (w *world) bareView() string {
-	v := w.bare.View()
-	return showList(acct{v.BaseNonce, v.BaseBalance.Uint64()}, v.Ready, v.Txs, w.idOf)
-}
-
-func (w *world) bareOracle() string {
-	v := w.bare.View()
-	prev := v.BaseNonce
-	for k, t := range v.Txs {
-		n := t.GetBody().GetNonce()
-		if n <= prev {
-			if k == 0 {
-				return fmt.Sprintf("list: nonce %d not above the base nonce %d", n, prev)
-			}
-			return fmt.Sprintf("list: nonce %d after %d (not strictly ascending)", n, prev)
-		}
-		prev = n
-	}
-	if v.Ready < 0 || v.Ready > len(v.Txs) {
-		return "list: ready outside the list"
-	}
-	for k := 0; k < v.Ready; k++ {
-		if v.Txs[k].GetBody().GetNonce() != v.BaseNonce+uint64(k)+1 {
-			return "list: ready run has a gap"
-		}
-	}
-	if v.Ready < len(v.Txs) && v.Txs[v.Ready].GetBody().GetNonce() == v.BaseNonce+uint64(v.Ready)+1 {
-		return "list: gap-filling transaction held aside"
-	}
-	g := w.bare.Get()
-	if len(g) != v.Ready {
-		return "list: Get() is not the ready prefix"
-	}
-	return ""
-}
-
-func (w *world) bareEmit(op, res string, nontrivial bool) {
-	w.bareOps = append(w.bareOps, op)
-	w.run.Op(op, res+" | "+w.bareView(), nontrivial)
-	if v := w.bareOracle(); v != "" {
-		w.failBare(v)
-	}
-}
-
-func (w *world) failBare(v string) {
-	rep := map[string]interface{}{"list_after": w.bareView()}
-	ops := append([]string(nil), w.bareOps...)
-	if w.nshrunk < 4 {
-		w.nshrunk++
-		if w.replayBare(ops) != "" {
-			ops = w.shrink(ops, 1, w.replayBare)
-			rep["minimised_from"] = len(w.bareOps)
-			rep["verdict_on_minimised"] = w.replayBare(ops)
-		}
-	}
-	rep["list_ops"] = ops
-	w.run.Fail(v, rep)
-}
-
-// replayBare re-runs list operations on a fresh real txList; first oracle failure or "".
-func (w *world) replayBare(ops []string) (verdict string) {
-	saved := w.bare
-	defer func() {
-		if e := recover(); e != nil {
-			verdict = fmt.Sprintf("panic: %v", e)
-		}
-		w.bare = saved
-	}()
-	atou := func(x string) uint64 { n, _ := strconv.ParseUint(x, 10, 64); return n }
-	st := func(n, b string) *types.State {
-		return &types.State{Nonce: atou(n), Balance: new(big.Int).SetUint64(atou(b)).Bytes()}
-	}
-	for _, op := range ops {
-		f := strings.Fields(op)
-		switch f[0] {
-		case "lnew":
-			w.bare = w.mp.VerifNewTxList(w.addr[0], st(f[1], f[2]))
-		case "lput":
-			w.bare.Put(types.NewTransaction(w.txs[int(atou(f[2]))].GetTx()))
-		case "lfilter":
-			w.bare.FilterByState(st(f[1], f[2]))
-			for _, t := range w.bare.View().Txs {
-				if t.GetBody().GetNonce() <= atou(f[1]) {
-					return "list: stale nonce kept after FilterByState"
-				}
-			}
-		case "lrm":
-			w.bare.RemoveTx(w.txs[int(atou(f[1]))].GetTx())
-		case "lget":
-			w.bare.Get()
-		}
-		if v := w.bareOracle(); v != "" {
-			return v
-		}
-	}
-	return ""
-}
-
-func (w *world) bareNew(n, b uint64) {
-	w.bare = w.mp.VerifNewTxList(w.addr[0], &types.State{Nonce: n, Balance: new(big.Int).SetUint64(b).Bytes()})
-	w.bareOps = nil
-	w.bareEmit(fmt.Sprintf("lnew %d %d", n, b), "ok", false)
-}
-
-func (w *world) barePut(n, c uint64, salt int) {
-	tx := w.mkTx(0, 1, n, c, salt)
-	d, err := w.bare.Put(types.NewTransaction(tx))
-	res := classify(err)
-	if err == nil {
-		res = fmt.Sprintf("ok %d", d)
-	}
-	w.run.Count("lput:" + strings.Fields(res)[0])
-	w.bareEmit(fmt.Sprintf("lput %d %d %d", n, w.idOf(tx), c), res, err == nil)
-}
-
-func (w *world) bareFilter(n, b uint64) {
-	before := w.bare.View()
-	d, rm := w.bare.FilterByState(&types.State{Nonce: n, Balance: new(big.Int).SetUint64(b).Bytes()})
-	var ids []string
-	for _, t := range rm {
-		ids = append(ids, strconv.Itoa(w.idOf(t.GetTx())))
-	}
-	kind := "advance"
-	if n == before.BaseNonce {
-		kind = "same-nonce"
-	} else if n < before.BaseNonce {
-		kind = "rewind"
-	}
-	if b < before.BaseBalance.Uint64() {
-		kind += "+balance-down"
-	}
-	w.run.Count("lfilter:" + kind)
-	w.bareEmit(fmt.Sprintf("lfilter %d %d", n, b), fmt.Sprintf("%d rm=%s", d, orDash(strings.Join(ids, ","))), len(before.Txs) > 0)
-	// no stale entry after the notification; what was removed + what is left = what was held
-	after := w.bare.View()
-	for _, t := range after.Txs {
-		if t.GetBody().GetNonce() <= n {
-			w.run.Fail(fmt.Sprintf("list: stale nonce %d kept after state nonce %d", t.GetBody().GetNonce(), n),
-				map[string]interface{}{"list_ops": append([]string(nil), w.bareOps...)})
-		}
-	}
-	if len(after.Txs)+len(rm) != len(before.Txs) {
-		w.run.Fail("list: FilterByState lost or duplicated transactions", map[string]interface{}{"list_ops": append([]string(nil), w.bareOps...)})
-	}
-}
-
-func (w *world) bareRemove(tx *types.Tx) {
-	d, x := w.bare.RemoveTx(tx)
-	res := fmt.Sprintf("%d -", d)
-	if x != nil {
-		res = fmt.Sprintf("%d %d", d, x.GetBody().GetNonce())
-	}
-	w.run.Count("lrm")
-	w.bareEmit(fmt.Sprintf("lrm %d", w.idOf(tx)), res, x != nil)
-}
-
-func (w *world) bareGet() {
-	var ts []string
-	for _, t := range w.bare.Get() {
-		ts = append(ts, fmt.Sprintf("%d/%d", t.GetBody().GetNonce(), w.idOf(t.GetTx())))
-	}
-	w.bareOps = append(w.bareOps, "lget")
-	w.run.Op("lget", orDash(strings.Join(ts, ",")), len(ts) > 0)
-}
-
-// safely runs one session; a Go panic inside the real code is reported as a failure with the session so far.
-func (w *world) safely(kind string, f func()) {
-	defer func() {
-		if e := recover(); e != nil {
-			ops := w.ops
-			if kind == "list" {
-				ops = w.bareOps
-			}
-			w.run.Fail(fmt.Sprintf("panic in the pool code during a %s session: %v", kind, e),
-				map[string]interface{}{kind + "_ops": append([]string(nil), ops...)})
-			w.run.Count("panic:" + kind)
-		}
-	}()
-	f()
-}
-
-func (w *world) bareRandom(nsess, nops int) {
-	for s := 0; s < nsess; s++ {
-		w.safely("list", func() { w.bareRandomSession(nops) })
-	}
-}
-
-func (w *world) bareRandomSession(nops int) {
-	rng := w.rng
-	{
-		base := uint64(rng.Intn(5))
-		bal := uint64(rng.Intn(60))
-		w.bareNew(base, bal)
-		cur := base
-		for i := 0; i < nops; i++ {
-			switch k := rng.Intn(100); {
-			case k < 60:
-				n := cur + uint64(rng.Intn(9))
-				if rng.Chance(1, 10) && cur > 0 {
-					n = uint64(rng.Intn(int(cur) + 1))
-				}
-				w.barePut(n, uint64(rng.Intn(40)), rng.Intn(2))
-			case k < 80:
-				n := cur
-				switch rng.Intn(4) {
-				case 0: // same
-				case 1: // rewind
-					n = uint64(rng.Intn(int(cur) + 1))
-				default: // advance
-					n = cur + uint64(rng.Intn(5))
-				}
-				cur = n
-				w.bareFilter(n, uint64(rng.Intn(60)))
-			case k < 92:
-				v := w.bare.View()
-				if len(v.Txs) > 0 && rng.Chance(4, 5) {
-					w.bareRemove(v.Txs[rng.Intn(len(v.Txs))].GetTx())
-				} else {
-					w.bareRemove(w.mkTx(0, 1, 1+uint64(rng.Intn(9)), 1, 9000+rng.Intn(100)))
-				}
-			default:
-				w.bareGet()
-			}
-		}
-	}
-}
-
-// every order of arrival of every multiset of k nonces from 1..m on base nonce 0, then every new
-// state nonce 0..m with unchanged / lower balance (small-scope enumeration; labelled as such)
-func (w *world) bareEnumerate(m, k int) {
-	seq := make([]int, k)
-	var rec func(pos int)
-	count := 0
-	rec = func(pos int) {
-		if pos == k {
-			for sn := 0; sn <= m; sn++ {
-				for _, bal := range []uint64{100, 2} {
-					w.safely("list", func() {
-						w.bareNew(0, 100)
-						for _, n := range seq {
-							w.barePut(uint64(n), uint64(n), 0) // cost = nonce: a low balance removes the high ones
-						}
-						w.bareFilter(uint64(sn), bal)
-						w.bareGet()
-					})
-					count++
-				}
-			}
-			return
-		}
-		for n := 1; n <= m; n++ {
-			seq[pos] = n
-			rec(pos + 1)
-		}
-	}
-	rec(0)
-	w.run.Count(fmt.Sprintf("enumerated:put-orders-%d-of-%d-x-states", k, m))
-}
-
-// ---------------------------------------------------------------- concurrent support run (testing, not proof)
-
-func (w *world) concurrent(rounds int) {
-	for r := 0; r < rounds; r++ {
-		w.newSession()
-		var g [nAcc]acct
-		for i := range g {
-			g[i] = acct{0, 1000000}
-		}
-		gen := w.mkBlock(nil, nil, nil, 1, &g)
-		w.mp.VerifInit(gen.b)
-		w.mp.VerifBlockArrival(gen.b)
-		w.best, w.settled = gen, true
-		// pre-generate everything from the single PRNG; the schedule is the only nondeterminism
-		const perAcc = 40
-		var subs [nAcc][]*types.Tx
-		for a := 0; a < nAcc; a++ {
-			perm := make([]int, perAcc)
-			for i := range perm {
-				perm[i] = i
-			}
-			for i := len(perm) - 1; i > 0; i-- {
-				j := w.rng.Intn(i + 1)
-				perm[i], perm[j] = perm[j], perm[i]
-			}
-			for _, p := range perm {
-				subs[a] = append(subs[a], w.mkTx(a, (a+1)%nAcc, uint64(p+1), 1, 0))
-				if w.rng.Chance(1, 5) {
-					subs[a] = append(subs[a], w.mkTx(a, (a+2)%nAcc, uint64(p+1), 2, 1)) // same nonce, other hash
-				}
-			}
-		}
-		// blocks that consume nonces 1..8, 9..16, ... of every account
-		var chain []*blk
-		p := gen
-		for k := 0; k < 3; k++ {
-			var txs []btx
-			for a := 0; a < nAcc; a++ {
-				for n := k*8 + 1; n <= k*8+8; n++ {
-					txs = append(txs, btx{a, (a + 1) % nAcc, w.mkTx(a, (a+1)%nAcc, uint64(n), 1, 0)})
-				}
-			}
-			p = w.mkBlock(p, txs, nil, 1, nil)
-			chain = append(chain, p)
-		}
-		var wg sync.WaitGroup
-		var mu sync.Mutex
-		fetchBad := ""
-		for a := 0; a < nAcc; a++ {
-			for half := 0; half < 2; half++ {
-				wg.Add(1)
-				go func(a, half int) {
-					defer wg.Done()
-					for i, t := range subs[a] {
-						if i%2 == half {
-							w.mp.VerifPut(types.NewTransaction(t))
-						}
-					}
-				}(a, half)
-			}
-		}
-		wg.Add(1)
-		go func() {
-			defer wg.Done()
-			for _, b := range chain {
-				time.Sleep(200 * time.Microsecond)
-				w.mp.VerifBlockArrival(b.b)
-			}
-		}()
-		for f := 0; f < 2; f++ {
-			wg.Add(1)
-			go func() {
-				defer wg.Done()
-				for i := 0; i < 50; i++ {
-					txs, _ := w.mp.VerifGet(math.MaxUint32)
-					last := map[string]uint64{}
-					for _, t := range txs {
-						k := string(t.GetBody().GetAccount())
-						if l, ok := last[k]; ok && t.GetBody().GetNonce() != l+1 {
-							mu.Lock()
-							fetchBad = fmt.Sprintf("concurrent fetch: nonce %d follows %d", t.GetBody().GetNonce(), l)
-							mu.Unlock()
-						}
-						last[k] = t.GetBody().GetNonce()
-					}
-					w.mp.Size()
-				}
-			}()
-		}
-		wg.Wait()
-		w.best = chain[len(chain)-1]
-		w.settled = true
-		v := w.oracle()
-		if v == "" {
-			v = fetchBad
-		}
-		if v != "" {
-			w.run.Fail("after concurrent submissions/notifications/fetches: "+v, map[string]interface{}{"round": r, "pool_after": w.dump()})
-		}
-		w.run.Eval(fmt.Sprintf("concurrent %d %s", r, w.dump()), true)
-		w.run.Count("support:concurrent-round(testing,no-race-detector)")
-	}
-}
-
-func main() {
-	zerolog.SetGlobalLevel(zerolog.Disabled)
-	run := vh.Start("c13", "real txList / MemPool vs model, op by op. list sessions: random Put/FilterByState/RemoveTx/Get plus enumeration of every "+
-		"arrival order of k nonces out of 1..m followed by every new state; pool sessions: submissions (arbitrary order, duplicates by hash, same-nonce "+
-		"replacements, gaps, stale, unaffordable), removals, blocks built on a real state DB (extensions, multi-block reorganisations with rewound "+
-		"accounts, repeated notification, chain-id change), evictions with backdated lists, fetches, existence and size queries, unconfirmed report. "+
-		"non-trivial = the operation changed or returned pool content; distinct by (op, answer incl. full pool state)")
-	defer run.Finish()
-	// vh.NewRng(seed+1) is vh.NewRng(seed) advanced by one step (additive splitmix state), so neighbouring seeds
-	// would replay almost the same stream; fork once through the output mixer to decorrelate them.
-	w := &world{run: run, rng: run.Rng.Fork(), aidx: map[string]int{}}
-	for i := 0; i < nAcc; i++ {
-		a := make([]byte, types.AddressLength)
-		a[0] = 2
-		binary.BigEndian.PutUint32(a[1:], uint32(i+1))
-		for k := 5; k < len(a); k++ {
-			a[k] = byte(17*i + k)
-		}
-		w.addr[i] = a
-		w.aidx[string(a)] = i
-	}
-	// bare list level
-	w.newSession()
-	var g [nAcc]acct
-	gen := w.mkBlock(nil, nil, nil, 1, &g)
-	w.mp.VerifInit(gen.b)
-	w.bareRandom(run.Pick(2000, 15000), 40)
-	if run.Thorough() {
-		w.bareEnumerate(5, 4)
-	} else {
-		w.bareEnumerate(4, 3)
-	}
-	// pool level
-	w.safely("session", w.namedSenderMinimal)
-	w.safely("session", w.reorgWindow)
-	for s := 0; s < run.Pick(1000, 12000); s++ {
-		n := 60 + w.rng.Intn(120)
-		w.safely("session", func() { w.poolSession(n) })
-	}
-	// concurrency: support only
-	w.safely("session", func() { w.concurrent(run.Pick(10, 200)) })
-}
+func main() { c13lib.MainPool() }
